@@ -55,6 +55,16 @@ claim("C07",
       GEN, "DESIGN.md 5/C07")
 
 
+claim("C04",
+      "Flow.tla composes two passes of the version machine (as-is pass, first-match branch rule, flag > rule > default resolution, guarded flow bumps, tag-mode dirty rule). TLC checks that the walk of pass two equals the component law stated by the property and that a clean tagged commit is unchanged, over tags x branch names (incl. release-1, releases, release/, nested and numeric segments) x distance x dirty flags x --post x explicit label/number/mode x hash lengths x rule sets x presets; every input is run through `zerv flow` and compared component by component (branch hash through its contract); random runs with Unicode and 100-character branches and random rule sets are judged by Trace_Flow.",
+      "Exhaustive over the stated product (64k inputs quick, 1.1M-scale thorough space sampled by TLC exhaustively per chosen constants); random beyond. Sources none only (stdin shares the same code after parsing).",
+      GEN, "DESIGN.md 5/C03-C04")
+claim("C03",
+      "On MC_Flow TLC evaluates C03 on the specification's own renderings (Render.tla) with SemVerOrder / Pep440Order: exact tag when clean, X.Y.Z < V < X.Y.(Z+1) otherwise, strict increase with one more commit in commit mode; presets without a pre-release or post component are design-level counterexamples and are listed as known findings. The same inequalities are then evaluated by Trace_Flow on the OBSERVED semver / pep440 outputs of every generated input and of random runs, parsed by the grammar modules - zerv's own comparator is never the judge.",
+      "Exhaustive over the bounded input product x all 11 standard presets; random beyond. The SemVer upper bound is not claimed for tags with an epoch. Git-history chains are covered by C02's sessions.",
+      GEN, "DESIGN.md 5/C03-C04")
+
+
 def main():
     m = {
         "version": 1,
